@@ -235,10 +235,23 @@ def _module_globals():
                 continue
             if isinstance(v, (int, float, str, bool, type(None))):
                 out[f'{name}.{k}'] = v
+        # class attributes (constants such as temperature clamps, shared defaults) of every class the package defines
+        for k, v in vars(m).items():
+            if isinstance(v, type) and getattr(v, '__module__', '').startswith('py_ballisticcalc'):
+                for ak, av in vars(v).items():
+                    if ak.startswith('__') or callable(av) or isinstance(av, (property, staticmethod, classmethod)):
+                        continue
+                    if isinstance(av, (int, float, str, bool, type(None))) and not isinstance(av, p_enum()):
+                        out[f'{v.__module__}.{v.__qualname__}.{ak}'] = av
     p = pybc()
     for k in p.PreferredUnits.__dataclass_fields__:
         out[f'PreferredUnits.{k}'] = int(getattr(p.PreferredUnits, k))
     return out
+
+
+def p_enum():
+    import enum
+    return enum.Enum
 
 
 def _cfg_fp(tier):
@@ -247,14 +260,14 @@ def _cfg_fp(tier):
 
 @harness('C10.footprint', 'C10', configs=_cfg_fp, functions=FUNCS, cost=3,
          must_reach=['check:writes_confined_to_own_solver_object', 'check:threads_equal_serial'],
-         bounds='write footprint of fire / zero / failing fire on carriers A, B (diff of snapshots of every pre-existing reachable object and the package module globals); '
+         bounds='write footprint of fire / zero / failing fire on carriers A, B and of an unrelated vacuum shot, a modified standard atmosphere and a multi-BC model built along the way (diff of snapshots of every pre-existing reachable object, the package module globals and the scalar class attributes of every class of the package); '
                 'two calculators in two threads (switch interval 1e-6 s, 3 rounds) vs serial: bit-identical - TEST strength for the schedules',
          outside=['thread interleavings are not enumerated: the claim rests on the disjoint write footprints (decided) plus CPython attribute-store atomicity',
                   'threads sharing one Shot / Weapon object while zeroing'])
 def c10_footprint(ctx, carrier, step_ft, wind):
     p = pybc()
     U = p.Unit
-    calc, shot = carriers.make(carrier, step_ft, wind)
+    calc, shot = carriers.make(carrier, step_ft, wind, look_deg=6.0, cant_deg=3.0)      # not the same sight line / cant as the other calculator's shot
     other, oshot = carriers.make(carrier, step_ft, wind)
     other.fire(oshot, U.Foot(3 * step_ft), U.Foot(step_ft))
     g0 = _module_globals()
@@ -265,13 +278,19 @@ def c10_footprint(ctx, carrier, step_ft, wind):
         p.Calculator(_config={'max_calc_step_size_feet': step_ft, 'cMinimumVelocity': 1e5}).fire(shot, U.Foot(4 * step_ft), U.Foot(step_ft))
     except p.RangeError:
         pass
+    # an unrelated shot in a vacuum (its own calculator, its own objects), other atmospheres and drag models built along the way
+    vshot = p.Shot(p.Weapon(U.Inch(2.0)), p.Ammo(p.DragModel(0.3, p.TableG1), U.FPS(2500.0)), atmo=p.Vacuum(U.Foot(1000.0), U.Celsius(5.0)))
+    p.Calculator(_config={'max_calc_step_size_feet': step_ft}).fire(vshot, U.Foot(3 * step_ft), U.Foot(step_ft))
+    p.Atmo.icao(U.Foot(2500.0)).humidity = 40
+    p.DragModelMultiBC([p.BCPoint(0.3, Mach=1.0), p.BCPoint(0.28, Mach=2.0)], p.TableG7)
     g1 = _module_globals()
     s1 = snap({'shot': shot, 'other_calc': vars(other._calc), 'other_shot': oshot})
     ctx.check('writes_confined_to_own_solver_object', g0 == g1 and s0 == s1,
               info={'globals_changed': [k for k in g0 if g0[k] != g1.get(k)][:5], 'objects_changed': [k for k in s0 if s0[k] != s1.get(k)][:5]})
     # threads: each thread owns its calculator and shot
     def job(out, i):
-        c, s = carriers.make(carrier, step_ft, wind, fresh=False)
+        # every thread owns its calculator and its shot; the shots differ (sight line, cant), as they would between real users
+        c, s = carriers.make(carrier, step_ft, wind, fresh=False, look_deg=4.0 * i, cant_deg=2.0 * i)
         rows = []
         for _ in range(3):
             rows.append([tuple(getattr(x, 'raw_value', x) for x in r) for r in c.fire(s, U.Foot(4 * step_ft), U.Foot(step_ft), True).trajectory])
@@ -279,7 +298,8 @@ def c10_footprint(ctx, carrier, step_ft, wind):
             rows.append(s.weapon.zero_elevation.raw_value)
         out[i] = rows
     serial = {}
-    job(serial, 0)
+    for i in range(3):
+        job(serial, i)
     old = sys.getswitchinterval()
     sys.setswitchinterval(1e-6)
     try:
@@ -291,7 +311,7 @@ def c10_footprint(ctx, carrier, step_ft, wind):
             t.join()
     finally:
         sys.setswitchinterval(old)
-    ctx.check('threads_equal_serial', all(res.get(i) == serial[0] for i in range(3)))
+    ctx.check('threads_equal_serial', all(res.get(i) == serial[i] for i in range(3)))
 
 
 def _cfg_kept(tier):
